@@ -97,7 +97,7 @@ def response_case(ctx, S, rng):
     d = ctx.driver()
     parity = int(rng.choice([0, 1]))
     k = int(rng.integers(1, 41))
-    red = gens.phases(rng, k)[0]
+    red = gens.phases(rng, k, pattern=("huge" if rng.random() < 0.15 else None))[0]
     near = lambda: float(rng.choice([1, -1])) * (1.0 - 10.0 ** float(rng.uniform(-7, -2)))   # close to, not at, an end point
     avals = [float(rng.uniform(-1, 1)), float(rng.choice([1.0, -1.0, 0.0, 0.3])), near()]
     with core.quiet():
@@ -112,10 +112,10 @@ def response_case(ctx, S, rng):
     ctx.case(["resp", parity, red, avals], True, {"kind": "response", "parity": parity, "k": k, "a": avals})
     replay = {"kind": "response", "parity": parity, "reduced": red, "a": avals}
     for i, a in enumerate(avals):
-        mo = d.ask("resp Wx z 70 %s %s" % (rs(F(a)), rl(F(x) for x in full)))
+        mo = d.ask("resp Wx z 70 %s %s" % (rs(F(a)), rl(core.redphase(F(x)) for x in full)))
         val, err = mo.split()
         mr, mi = core.pcx(val)
-        tol = Fraction(1, 10 ** 12) * (n + 1) + pr(err)
+        tol = Fraction(1, 10 ** 12) * (n + 1) + pr(err) + (n + 1) * core.REDUCTION_SLACK
         u00 = complex(U[i][0, 0])
         if max(abs(F(u00.real) - mr), abs(F(u00.imag) - mi)) > tol or abs(F(float(re[i])) - mr) > tol or abs(F(float(im[i])) - mi) > tol:
             ctx.violation("c12:response", "gen_unitary / gen_response_* differ from the Wx product of the full phases",
